@@ -123,6 +123,11 @@ def programs(tier):
                       [('s', ref_decode(fb) + [0]), ('t', ref_decode(fa) + [0])]))
             P.append(('local-then-global/%d/%d' % (a, b), pre + 'char *gp;\nvoid f() { char *p = "%s"; gp = p; }\nvoid main() { gp = "%s"; }\n' % (fa, fb), [('cctmp0', ref_decode(fa) + [0]), ('cctmp1', ref_decode(fb) + [0])]))
             P.append(('call-args/%d/%d' % (a, b), pre + 'char *gp; char *gq;\nvoid f(char *x, char *y) { gp = x; gq = y; }\nvoid main() { f("%s", "%s"); }\n' % (fa, fb), [('cctmp0', ref_decode(fa) + [0]), ('cctmp1', ref_decode(fb) + [0])]))
+    # literals in nested calls and parenthesised sub-expressions of one expression
+    for a, b, cc in itertools.product(range(0, len(F), 5), range(1, len(F), 6), range(2, len(F), 9)):
+        fa, fb, fc = F[a], F[b], F[cc]
+        P.append(('nested-call/%d/%d/%d' % (a, b, cc), pre + 'char *g1; char *g2; char *g3;\nchar g(char *x) { g2 = x; return 1; }\nvoid f(char *p, char q, char *r) { g1 = p; g3 = r; }\nvoid main() { f("%s", g("%s"), ("%s")); }\n' % (fa, fb, fc),
+                  [('cctmp0', ref_decode(fa) + [0]), ('cctmp1', ref_decode(fb) + [0]), ('cctmp2', ref_decode(fc) + [0])]))
     # character constants
     for ch, code in [('a', 97), (' ', 32), ('\\n', 10), ('\\t', 9), ('\\0', 0), ('\\\\', 92), ("\\'", 39), ('"', 34), ('/', 47), ('*', 42), ('#', 35), ('\\f', 12), ('\\v', 11), ('\\a', 7), ('\\b', 8), ('\\r', 13), ('@', 64)]:
         P.append(('char/%s' % ch, "const char k = '%s';\nvoid main() {}\n" % ch, [('k', 'Value(Int(%d))' % code)]))
